@@ -82,8 +82,14 @@ func propC17(a *Analysis, r *Registry) {
 			fc := X.Under(fn, X.AssumeCond(env.MustParse("level<0"), false), X.AssumeCond(env.MustParse("t.s.Min<0"), false))
 			// the append in the generating loop
 			var app *ssa.Call
-			for _, c := range fc.CallsTo("builtin:append") {
-				app = c
+			// (the generating loop may sit in a helper reached on this path)
+			for _, sfc := range fc.BoundCallees(1) {
+				for _, c := range sfc.CallsTo("builtin:append") {
+					app, fc = c, sfc
+				}
+				if app != nil {
+					break
+				}
 			}
 			if app == nil {
 				anchorFail("no tick is appended")
@@ -112,36 +118,38 @@ func propC17(a *Analysis, r *Registry) {
 		})
 		b.guard(rB, name+"/negated-domain", func() {
 			env := X.EnvFor(fn, "t", "level")
-			fc := X.Under(fn, X.AssumeCond(env.MustParse("t.s.Min<0"), true))
+			top := X.Under(fn, X.AssumeCond(env.MustParse("t.s.Min<0"), true))
 			n := 0
 			var ticks *RF
-			fc.Ctx.Instrs(func(in ssa.Instruction) {
-				st, ok := in.(*ssa.Store)
-				if !ok || !isFloatType(st.Val.Type()) {
-					return
-				}
-				ia, ok := st.Addr.(*ssa.IndexAddr)
-				if !ok || fc.Ctx.LoopOf(st.Block()) == nil {
-					return
-				}
-				v := fc.Val(st.Val)
-				src := FindFn(v, "idx")
-				if len(src) != 1 {
-					return
-				}
-				if !v.Equal(S.atomRF(src[0].ID).Neg()) {
-					return
-				}
-				ticks = fc.Val(ia.X)
-				i, j := fc.Val(ia.Index), src[0].Args[1]
-				e := X.EnvFor(fn, "t", "level")
-				e.Set("ticks", ticks, nil)
-				e.Set("i", i, nil)
-				e.Set("j", j, nil)
-				if i.Add(j).Equal(e.MustParse("len(ticks)-1")) && src[0].Args[0].Equal(ticks) {
-					n++
-				}
-			})
+			for _, fc := range top.BoundCallees(1) {
+				fc := fc
+				fc.Ctx.Instrs(func(in ssa.Instruction) {
+					st, ok := in.(*ssa.Store)
+					if !ok || !isFloatType(st.Val.Type()) {
+						return
+					}
+					ia, ok := st.Addr.(*ssa.IndexAddr)
+					if !ok || fc.Ctx.LoopOf(st.Block()) == nil {
+						return
+					}
+					v := fc.Val(st.Val)
+					src := FindFn(v, "idx")
+					if len(src) != 1 {
+						return
+					}
+					if !v.Equal(S.atomRF(src[0].ID).Neg()) {
+						return
+					}
+					ticks = fc.Val(ia.X)
+					i, j := fc.Val(ia.Index), src[0].Args[1]
+					e := X.EnvFor(fn, "t", "level")
+					e.Set("ticks", ticks, nil)
+					// mirror positions: i + j == len(ticks)-1, syntactically or as a loop invariant of two counters
+					if src[0].Args[0].Equal(ticks) && fc.InvariantEq(i.Add(j), e.MustParse("len(ticks)-1")) {
+						n++
+					}
+				})
+			}
 			if n == 2 {
 				r.OK(rB, name+"/negated-domain", b.pos(fn), "for negative domains ticks[i] and ticks[len-1-i] are exchanged and negated")
 			} else {
